@@ -692,6 +692,45 @@ def check_message(rep, D, H, p, m, calls, pa, pv, fvars, mode, sigs, out, extra_
                                   {"kind": "field", "def": p.id, "field": f.id, "payload": model_payload(m_), "what": "string-bits", "off": f.off, "len": f.len, "index": p.fields.index(f)})
             nchk += 1
             continue
+        if f.type == "INDIRECT_LOOKUP" and f.fixed and f.order in fvars and f.d.get("LookupIndirectEnumerationFieldOrder"):
+            # value = table[(bits of the field named by LookupIndirectEnumerationFieldOrder, own bits)], None when the pair is not listed
+            other = p.fields[f.d["LookupIndirectEnumerationFieldOrder"] - 1]
+            table = D.indirect.get(f.d.get("LookupIndirectEnumeration"), {})
+            fv = fvars[f.order]
+            nchk += 1
+            lab = "INDIRECT_LOOKUP/%d" % f.len
+
+            def ind_violation(kind, model, text):
+                rp = {"kind": "field", "def": p.id, "field": f.id, "payload": model_payload(model) if model is not None else "0x0", "what": kind,
+                      "off": f.off, "len": f.len, "index": p.fields.index(f)}
+                bad({"kind": kind, "def": p.id, "field": f.id}, "%s.%s (%s): %s" % (p.id, f.id, f.type, text), rp)
+            st, mm = prove(eq_term(got.raw_value, SymInt(z3.ZeroExt(1, fv))), list(extra_assume), label=lab + "/raw-bits")
+            if st == "sat":
+                ind_violation("raw-bits", mm, "raw_value is not the field's bits")
+            elif st == "unknown":
+                rep.inconc("%s.%s raw-bits undecided" % (p.id, f.id))
+            v = got.value
+            if not isinstance(v, symcoll.SymMap) or other.order not in fvars or not other.fixed:
+                ind_violation("lookup-shape", None, "value is %r, not a lookup keyed by two fields" % type(v).__name__)
+            else:
+                names = sorted({n_ for n_ in list(table.values()) + [x_ for x_ in v.mapping.values() if isinstance(x_, str)]})
+
+                def idx(name):
+                    return z3.IntVal(names.index(name) + 1 if name is not None else 0)
+                spec = idx(None)
+                for ks, nm in table.items():
+                    a_, b_ = (int(t_) for t_ in ks.split("_"))
+                    if a_ < (1 << other.len) and b_ < (1 << f.len):
+                        spec = z3.If(z3.And(fvars[other.order] == z3.BitVecVal(a_, other.len), fv == z3.BitVecVal(b_, f.len)), idx(nm), spec)
+                have = idx(v.default)
+                for kk, nm in v.mapping.items():
+                    have = z3.If(truth(v.key == kk), idx(nm), have)
+                st, mm = prove(have == spec, list(extra_assume), label=lab + "/value")
+                if st == "sat":
+                    ind_violation("indirect-lookup", mm, "value is not the database's %s entry for (%s bits, own bits)" % (f.d.get("LookupIndirectEnumeration"), other.id))
+                elif st == "unknown":
+                    rep.inconc("%s.%s indirect lookup undecided" % (p.id, f.id))
+            continue
         if f.type not in SUPPORTED or not f.fixed:
             out("field type %s / no fixed position" % f.type)
             continue
@@ -1275,6 +1314,11 @@ def replay(r):
         if err is not None:
             return True, "raised %r" % (err,)
         g = m.fields[idx]
+        if f.type == "INDIRECT_LOOKUP":
+            other = p.fields[f.d["LookupIndirectEnumerationFieldOrder"] - 1]
+            a_ = (payload >> other.off) & ((1 << other.len) - 1)
+            want = D.indirect.get(f.d.get("LookupIndirectEnumeration"), {}).get("%d_%d" % (a_, raw))
+            return g.value != want or g.raw_value != raw, "field %s: (%s=%d, own=%d) -> %r raw %r, database says %r" % (f.id, other.id, a_, raw, g.value, g.raw_value, want)
         if f.type in ("STRING_LAU", "STRING_LZ"):
             want = oracle_string(f, raw, ln)
             return (g.value or "").rstrip("\x00") != want.rstrip("\x00"), "field %s bytes %#x -> %r, expected %r" % (f.id, raw, g.value, want)
